@@ -4,6 +4,7 @@ package vsched
 
 import (
 	"encoding/json"
+	"regexp"
 	"fmt"
 	"os"
 	"runtime"
@@ -427,6 +428,49 @@ func finish(res Result) Result {
 	mu.Unlock()
 	return res
 }
+
+var compRe = regexp.MustCompile(`(\[\d+\]|\.len|\.cap)$`)
+
+// Input returns the model's value for the harness input called name requested by the current
+// thread (the engine's variable is nd!<name>!T<thread>:<call path>...). suffix selects a
+// component ("" for the value itself, ".len", ".cap", "[i]").
+func Input(name, suffix string) (int64, bool) {
+	if trace == nil {
+		return 0, false
+	}
+	tid := 0
+	if t := self(); t != nil && t.id >= 0 {
+		tid = t.id
+	}
+	pref := "nd!" + name + "!"
+	var anyKey string
+	n := 0
+	for k := range trace.Inputs {
+		if !strings.HasPrefix(k, pref) {
+			continue
+		}
+		comp := compRe.FindString(k)
+		if comp != suffix {
+			continue
+		}
+		mid := k[len(pref) : len(k)-len(comp)]
+		n++
+		anyKey = k
+		if strings.HasPrefix(mid, fmt.Sprintf("T%d:", tid)) {
+			return trace.Inputs[k][0], true
+		}
+	}
+	if n == 1 {
+		return trace.Inputs[anyKey][0], true
+	}
+	if v, ok := trace.Inputs["fix!"+name+suffix]; ok {
+		return v[0], true
+	}
+	return 0, false
+}
+
+// Active reports whether a replay is in progress.
+func Active() bool { return active }
 
 // ParkForever is the native vrt.Park: tell the controller, then block.
 func ParkForever() {
